@@ -235,6 +235,7 @@ class OopStateEngine(EngineBase):
 
     def prepare(self, tier):
         system.tp()
+        self._install_flag_probe()
         # warm the numba kernels once before forking (on-disk cache in the scratch dir serves the rest)
         combos = []
         for trunc in (2, 4, 6):
@@ -258,6 +259,25 @@ class OopStateEngine(EngineBase):
                 s.observe()
             except Exception:
                 pass
+
+    _flag_paths = set()
+
+    def _install_flag_probe(self):
+        """Count which change-flag combinations reach the tides cascade (a reach measure, never an oracle)."""
+        from TidalPy.tides.methods.base import TidesBase
+        if getattr(TidesBase.orbit_spin_changed, '_verif_probe', False):
+            return
+        original = TidesBase.orbit_spin_changed
+        paths = OopStateEngine._flag_paths
+
+        def probe(self_, eccentricity_change=True, obliquity_change=True, orbital_freq_changed=True, spin_freq_changed=True,
+                  *a, **k):
+            paths.add('%s:e%d o%d n%d s%d' % (type(self_).__name__, bool(eccentricity_change), bool(obliquity_change),
+                                            bool(orbital_freq_changed), bool(spin_freq_changed)))
+            return original(self_, eccentricity_change, obliquity_change, orbital_freq_changed, spin_freq_changed, *a, **k)
+        probe._verif_probe = True
+        probe.__wrapped__ = original
+        TidesBase.orbit_spin_changed = probe
 
     def tier_config(self, tier):
         if self.prop == 'C17':
@@ -332,6 +352,7 @@ class OopStateEngine(EngineBase):
         violations = []
         trace = []
         harness_errors = []
+        OopStateEngine._flag_paths.clear()
 
         def bump(k, n=1):
             counters[k] = counters.get(k, 0) + n
@@ -427,6 +448,7 @@ class OopStateEngine(EngineBase):
             self._kepler_oracle(hist, i, label, viol, bump, ride=False)
             if blocking:
                 break
+        sets['flag_paths'] = sorted(OopStateEngine._flag_paths)
         res = self._result(plan, violations, counters, sets, harness_errors, trace, n_applied)
         return res
 
